@@ -81,7 +81,7 @@ def const_str(op):
     c = op_const(op)
     if c is None:
         return None
-    m = re.match(r'^const "(.*)"$', c["text"], re.S)
+    m = re.match(r'^(?:const )?"(.*)"$', c["text"], re.S)
     if m:
         return m.group(1)
     return None
